@@ -108,6 +108,23 @@ CHECKS["C06"] = {
             "arithmetic or the independent-reader clause.",
     "note": "S matrices are taken square (rows = ports) when comparing counts; Touchstone option letters are covered under C08",
 }
+CHECKS["C12"] = {
+    "technique": "static fault enumeration: path-sensitive typestate and commit-order dataflow over the failure continuation of every allocation site",
+    "text": "Decides for every allocation site in the library (not a scripted subset) that on its failure continuation: the result is tested before use, every "
+            "resource acquired so far is released, rows allocated in a loop stay covered by the allocation extent, no integer counter/index/flag of a pre-existing "
+            "object and no parameter hold was committed before the failed allocation without undo, the failure value is delivered (no uninitialised or success "
+            "return) and no fallible callee's failure is dropped. Does not decide behaviour of failures inside libyaml/libc nor full observational equivalence "
+            "of the repeated call.",
+    "note": "pointer fields published from realloc and *_allocation capacity fields are bookkeeping, not logical state; exceptions are one symbol wide with a reason",
+}
+CHECKS["C13"] = {
+    "technique": "static sibling agreement and dataflow over the property-tree code (delete releases child, symbolic memmove extents, validate-before-mutate, wrapper anchors, scanner/quote_key character classes)",
+    "text": "Decides structural clauses of the document model: container delete operations release the removed child and shift exactly the following elements "
+            "(polynomial extent check), vnaproperty_vdelete reaches the container's delete on every success path, a refused set/delete has not modified the tree "
+            "(known finding: vset creates nodes before validating), the vnacal_property_* wrappers pass the calibration's own root anchor, and quote_key classifies "
+            "characters with the scanner's macros. Does not decide equality with the abstract document model over operation histories.",
+    "note": "the descriptor grammar itself is not modelled",
+}
 NOT_APPLICABLE = {
     "C14": "YAML fidelity of arbitrary scalars/keys depends on libyaml's emitter/scanner behaviour on run-time strings; no clause is visible in libvna's source shape (DESIGN.md section 3, C14)",
 }
